@@ -33,6 +33,7 @@ func must(err error) {
 type countingFS struct {
 	inner  hackpadfs.FS
 	noSeek bool
+	short  int // > 0: a Read hands back at most this many bytes (a network / decompressing source), as io.Reader allows
 	mu     sync.Mutex
 	opens  map[string]int
 	// reads on source handles, attributed to the epoch (number of completed cache.Open calls for that name) in which the handle was opened
@@ -74,6 +75,9 @@ func (f *countingFile) Read(p []byte) (int, error) {
 	}
 	f.fs.readsByOpenIndex[f.name][f.epoch]++
 	f.fs.mu.Unlock()
+	if f.fs.short > 0 && len(p) > f.fs.short {
+		p = p[:f.fs.short]
+	}
 	return f.File.Read(p)
 }
 
@@ -115,6 +119,8 @@ type Header struct {
 	Retain string     `json:"retain"` // default never name size
 	Store  string     `json:"store"`  // mem minimal
 	NoSeek bool       `json:"noseek"`
+	// ShortRead: the source's Read returns at most this many bytes per call (0 = as many as asked)
+	ShortRead int `json:"short_read,omitempty"`
 }
 
 func content(path string, size int) []byte {
@@ -171,6 +177,7 @@ type machine struct {
 func newMachine(h Header) *machine {
 	m := &machine{h: h, twin: buildSource(h), retained: map[string]bool{}, firstRetained: map[string]int{}, pages: map[int]int{}}
 	m.counting = newCounting(buildSource(h), h.NoSeek)
+	m.counting.short = h.ShortRead
 	inner := subj.NewMem()
 	m.store = inner
 	var err error
@@ -413,9 +420,10 @@ var sizes = []int{0, 1, 511, 512, 513, 1024, 1500, 5000}
 
 func genHeader(t *rapid.T) Header {
 	h := Header{
-		Retain: rapid.SampledFrom([]string{"default", "default", "never", "name", "size"}).Draw(t, "retain"),
-		Store:  rapid.SampledFrom([]string{"mem", "minimal"}).Draw(t, "store"),
-		NoSeek: rapid.Bool().Draw(t, "noseek"),
+		Retain:    rapid.SampledFrom([]string{"default", "default", "never", "name", "size"}).Draw(t, "retain"),
+		Store:     rapid.SampledFrom([]string{"mem", "minimal"}).Draw(t, "store"),
+		NoSeek:    rapid.Bool().Draw(t, "noseek"),
+		ShortRead: rapid.SampledFrom([]int{0, 0, 0, 1, 7, 100, 300}).Draw(t, "shortread"),
 	}
 	dirs := []string{"."}
 	nd := rapid.IntRange(0, 3).Draw(t, "ndirs")
